@@ -43,10 +43,27 @@ SplitLines(f, cur) ==
   ELSE SplitLines(Tail(f), Append(cur, Head(f)))
 ReadFile(f) == LET ls == SplitLines(f, <<>>) IN [i \in DOMAIN ls |-> Deserialize(ls[i])]
 
+\* The same reading at the grain of the reader's buffer: the file arrives in fills that end at multiples of
+\* B; a line may straddle fills (its head is kept in `partial`).  blankShortcut = TRUE is a deviation a seeded
+\* change introduced: a line feed that is the first byte of a fill is taken for a blank line even when
+\* `partial` holds the head of a record, which is then glued to the next record.
+MinOf(a, b) == IF a < b THEN a ELSE b
+FirstNL(s) == IF \E i \in DOMAIN s : s[i] = "NL" THEN CHOOSE i \in DOMAIN s : s[i] = "NL" /\ \A j \in 1..i - 1 : s[j] # "NL" ELSE 0
+RECURSIVE BufLines(_, _, _, _, _, _)
+BufLines(f, p, partial, acc, B, blankShortcut) ==
+  IF p >= Len(f) THEN (IF partial = <<>> THEN acc ELSE Append(acc, partial))
+  ELSE LET lim == MinOf(Len(f), ((p \div B) + 1) * B)
+           avail == SubSeq(f, p + 1, lim)
+           nl == FirstNL(avail)
+       IN IF nl = 0 THEN BufLines(f, lim, partial \o avail, acc, B, blankShortcut)
+          ELSE IF nl = 1 /\ (blankShortcut \/ partial = <<>>) THEN BufLines(f, p + 1, partial, acc, B, blankShortcut)
+          ELSE BufLines(f, p + nl, <<>>, Append(acc, partial \o SubSeq(avail, 1, nl - 1)), B, blankShortcut)
+ReadFileBuffered(f, B, blankShortcut) == LET ls == BufLines(f, 0, <<>>, <<>>, B, blankShortcut) IN [i \in DOMAIN ls |-> Deserialize(ls[i])]
+
 LintCount(log) == Len(SelectSeq(log, LAMBDA r : r.kind = "Lint"))
 
 -----------------------------------------------------------------------------
-CONSTANTS MaxCtx, MaxRecords
+CONSTANTS MaxCtx, MaxRecords, BufSize, BlankShortcut
 VARIABLES file, log, sessions
 slvars == <<file, log, sessions>>
 
@@ -64,5 +81,7 @@ SLNext == (\E k \in {"Lint", "Cfg"}, c \in Ctxs : WriteRecord([kind |-> k, ctx |
 
 ReadsBack == ReadFile(file) = log
 NoRawBreakInRecord == \A i \in DOMAIN log : \A j \in DOMAIN Serialize(log[i]) : Serialize(log[i])[j] \notin {"NL", "CR"}
+\* wherever the fills end
+BufferedReadsBack == ReadFileBuffered(file, BufSize, BlankShortcut) = log
 SummaryCountsOnce == LintCount(ReadFile(file)) = LintCount(log)
 =============================================================================
